@@ -224,6 +224,11 @@ func getResources(ignoreReallocatedTasks bool, pods ...*pod_info.PodInfo) *resou
 		if ignoreReallocatedTasks && pod_status.IsActiveAllocatedStatus(task.Status) {
 			continue
 		}
+		// A potential victim that the simulation returned to its own node is active again and not
+		// pipelined: nothing is taken from its queue, whether or not consolidation is allowed.
+		if pod_status.IsActiveAllocatedStatus(task.Status) && task.Status != pod_status.Pipelined {
+			continue
+		}
 		resources = append(resources, task.AcceptedResource)
 	}
 
